@@ -72,6 +72,7 @@ func checkC05(r *Run) {
 	if !r.quick() {
 		exploreConc(r, concGenFor(r, rng, 3, 2, int(r.Seed)+1), "", 30*time.Minute)
 	}
+	runStressD2(r)
 	r.assumption("interleavings are controlled at the verification points of the implementation; code between two points runs without interruption in the replay")
 }
 
